@@ -5,7 +5,7 @@
 # Prints one line per check: "<seeded> <ID> exit=<code> <VIOLATION line if any>".
 set -u
 DIR="${1:?usage: seeded_check.sh <seeded-dir> <ID>...}"; shift
-PATCH="$DIR/patch.diff"
+DIR=$(realpath "$DIR"); PATCH="$DIR/patch.diff"
 TIER="${TIER:-quick}"
 if [ -n "$(git -C /repo status --porcelain --untracked-files=no)" ]; then
   echo "refusing: /repo has uncommitted changes" >&2; exit 2
